@@ -162,6 +162,18 @@ class _Renamer(ast.NodeTransformer):
         return node
 
 
+def _immutable_default(d: ast.expr) -> bool:
+    if isinstance(d, (ast.Constant, ast.Name, ast.Attribute)):
+        return True
+    if isinstance(d, ast.UnaryOp):
+        return _immutable_default(d.operand)
+    if isinstance(d, ast.Tuple):
+        return all(_immutable_default(e) for e in d.elts)
+    if isinstance(d, ast.BinOp):
+        return _immutable_default(d.left) and _immutable_default(d.right)
+    return False
+
+
 def _match_call(call: ast.Call, helpers: Dict[Tuple[Optional[str], str], _Helper], cur_cls: Optional[str]) -> Optional[_Helper]:
     f = call.func
     if isinstance(f, ast.Name):
@@ -259,8 +271,8 @@ def _bind(h: _Helper, call: ast.Call, caller_names: Set[str], counter: List[int]
                 return None
     for (p, d) in params:
         if p not in actual:
-            if d is None:
-                return None
+            if d is None or not _immutable_default(d):
+                return None  # (a mutable default is one object shared by all calls: not the same as a fresh one per call)
             actual[p] = d
     assigned = set()
     for st in h.body:
@@ -1456,7 +1468,7 @@ def _bind_simple(fn: ast.FunctionDef, params: List[str], call: ast.Call, tag: st
         actual[k.arg] = k.value
     for p_, d in zip(params, defaults):
         if p_ not in actual:
-            if d is None:
+            if d is None or not _immutable_default(d):
                 return None
             actual[p_] = d
     assigned = set()
@@ -1905,6 +1917,10 @@ def _hoist_nested_helper_calls(tree: ast.Module, modname: str, table: Set[str]) 
                             q_ = parents_.get(id(q_))
                         others_ = [x for x in ast.walk(val) if isinstance(x, (ast.Call, ast.Yield, ast.Await, ast.NamedExpr)) and x is not inner_[0] and x not in chain_
                                    and not any(x is y for y in ast.walk(inner_[0]))]
+                        # calls that are evaluated after it (to its right) keep their place when it is bound first
+                        pos_ = (getattr(inner_[0], "end_lineno", None), getattr(inner_[0], "end_col_offset", None))
+                        if pos_[0] is not None:
+                            others_ = [x for x in others_ if not (getattr(x, "lineno", None) is not None and (x.lineno, x.col_offset) >= pos_)]
                         if ok_ and not others_:
                             counter[0] += 1
                             tmp = f"_hoisted{counter[0]}"
@@ -2366,16 +2382,171 @@ def _thread_none_flags(fn: ast.FunctionDef) -> bool:
     return changed[0]
 
 
+def _import_new_helpers(tree: ast.Module, modname: str, all_trees: Dict[str, ast.Module], table: Set[str]) -> List[str]:
+    """New module-level helpers (functions, context-manager classes) of a sibling module that this module imports by
+    name are copied in, so that they can be written out at their call sites like local helpers.  A helper is copied only
+    when every global it uses is a builtin, is bound identically in this module (import numpy as np), or is a simple
+    constant of its own module (copied along)."""
+    import builtins
+
+    def mod_rel(target: str) -> Optional[str]:
+        for cand in (target.replace(".", os.sep) + ".py", os.path.join(target.replace(".", os.sep), "__init__.py")):
+            if cand in all_trees:
+                return cand
+        return None
+
+    def import_bindings(t: ast.Module) -> Dict[str, str]:
+        out = {}
+        for st in t.body:
+            if isinstance(st, ast.Import):
+                for a in st.names:
+                    out[a.asname or a.name.split(".")[0]] = "import " + a.name + (" as " + a.asname if a.asname else "")
+            elif isinstance(st, ast.ImportFrom):
+                for a in st.names:
+                    out[a.asname or a.name] = f"from {'.' * st.level}{st.module or ''} import {a.name}"
+        return out
+
+    here = import_bindings(tree)
+    top_defs = {st.name for st in tree.body if isinstance(st, (ast.FunctionDef, ast.ClassDef))}
+    top_assigned = {t.id for st in tree.body if isinstance(st, ast.Assign) for t in st.targets if isinstance(t, ast.Name)}
+    pkg = modname.split(".")[:-1]
+    copied: List[str] = []
+    add_defs: List[ast.stmt] = []
+    add_consts: List[ast.stmt] = []
+    add_imports: List[str] = []
+    for node in ast.walk(tree):
+        if not isinstance(node, ast.ImportFrom):
+            continue
+        if node.level:
+            base = pkg[: len(pkg) - (node.level - 1)] if node.level - 1 <= len(pkg) else None
+            if base is None:
+                continue
+            target = ".".join(base + ([node.module] if node.module else []))
+        else:
+            target = node.module or ""
+        rel = mod_rel(target)
+        if rel is None or target == modname:
+            continue
+        src_tree = all_trees[rel]
+        there = import_bindings(src_tree)
+        src_consts = {}
+        cnt = {}
+        for st in src_tree.body:
+            if isinstance(st, ast.Assign):
+                for t in st.targets:
+                    if isinstance(t, ast.Name):
+                        cnt[t.id] = cnt.get(t.id, 0) + 1
+        for st in src_tree.body:
+            if isinstance(st, ast.Assign) and len(st.targets) == 1 and isinstance(st.targets[0], ast.Name) and cnt.get(st.targets[0].id) == 1:
+                src_consts[st.targets[0].id] = st
+        base_classes = {q.split(":")[1].split(".")[0] for q in table if q.startswith(target + ":") and "." in q.split(":")[1]}
+        for a in node.names:
+            local = a.asname or a.name
+            if local in top_defs or local in top_assigned or local in {d.name for d in add_defs}:
+                continue
+            d = next((st for st in src_tree.body if isinstance(st, (ast.FunctionDef, ast.ClassDef)) and st.name == a.name), None)
+            if d is None:
+                continue
+            if isinstance(d, ast.FunctionDef) and _qual(target, None, d.name) in table:
+                continue
+            if isinstance(d, ast.ClassDef) and (d.name in base_classes or d.bases or set(x.name for x in d.body if isinstance(x, ast.FunctionDef)) - {"__init__", "__enter__", "__exit__"}):
+                continue
+            # globals used by the helper
+            local_names = set()
+            for x in ast.walk(d):
+                if isinstance(x, ast.Name) and isinstance(x.ctx, (ast.Store, ast.Del)):
+                    local_names.add(x.id)
+                elif isinstance(x, ast.arg):
+                    local_names.add(x.arg)
+                elif isinstance(x, (ast.Import, ast.ImportFrom)):
+                    for al in x.names:
+                        local_names.add(al.asname or al.name.split(".")[0])
+            used = {x.id for x in ast.walk(d) if isinstance(x, ast.Name) and isinstance(x.ctx, ast.Load)} - local_names
+            ok = True
+            consts_needed = []
+            imports_needed = []
+
+            def available(i: str) -> bool:
+                if hasattr(builtins, i):
+                    return True
+                if i in there and here.get(i) == there[i]:
+                    return True
+                if i in there and i not in here and i not in top_defs and i not in top_assigned and not there[i].startswith("from ."):
+                    imports_needed.append(there[i])  # an absolute import of the helper's module that this module lacks
+                    return True
+                return False
+
+            for g in sorted(used):
+                if available(g):
+                    continue
+                if g in src_consts and g not in top_assigned and g not in top_defs and g not in here:
+                    cst = src_consts[g]
+                    inner = {x.id for x in ast.walk(cst.value) if isinstance(x, ast.Name)}
+                    if all(available(i) for i in inner) and not any(isinstance(x, (ast.Lambda, ast.Yield, ast.Await)) for x in ast.walk(cst.value)):
+                        consts_needed.append(cst)
+                        continue
+                if g == d.name:
+                    continue
+                ok = False
+                break
+            if not ok:
+                continue
+            dd = copy.deepcopy(d)
+            dd.name = local
+            add_defs.append(dd)
+            for imp in imports_needed:
+                if imp not in add_imports:
+                    add_imports.append(imp)
+            for cst in consts_needed:
+                if cst.targets[0].id not in {c.targets[0].id for c in add_consts}:
+                    add_consts.append(copy.deepcopy(cst))
+            copied.append(f"{target}:{a.name}")
+    if add_defs:
+        # after the leading imports / docstring
+        i = 0
+        while i < len(tree.body) and (isinstance(tree.body[i], (ast.Import, ast.ImportFrom)) or (isinstance(tree.body[i], ast.Expr) and isinstance(tree.body[i].value, ast.Constant))):
+            i += 1
+        tree.body[i:i] = [x for imp in add_imports for x in ast.parse(imp).body] + add_consts + add_defs
+        # the function-level `from .mod import helper` statements would re-bind the name to the original: drop those aliases
+        names = {d.name for d in add_defs}
+
+        class DropImports(ast.NodeTransformer):
+            def visit_ImportFrom(self, node):
+                keep = [al for al in node.names if (al.asname or al.name) not in names]
+                if len(keep) == len(node.names):
+                    return node
+                if not keep:
+                    return ast.Pass()
+                node.names = keep
+                return node
+
+        for st in tree.body:
+            if isinstance(st, (ast.FunctionDef, ast.ClassDef)):
+                DropImports().visit(st)
+        ast.fix_missing_locations(tree)
+    return copied
+
+
 def normalize_sources(sources: Dict[str, str], table: Optional[Set[str]] = None) -> Tuple[Dict[str, str], List[str]]:
     table = table if table is not None else baseline_table()
     out = dict(sources)
     inlined: List[str] = []
+    all_trees: Dict[str, ast.Module] = {}
+    for rel, src in sources.items():
+        try:
+            all_trees[rel] = ast.parse(src)
+        except SyntaxError:
+            pass
     for rel, src in sources.items():
         modname = rel[:-3].replace(os.sep, ".")
         if modname.endswith(".__init__"):
             modname = modname[: -len(".__init__")]
         tree = ast.parse(src)
         changed_any = False
+        imported = _import_new_helpers(tree, modname, all_trees, table)
+        if imported:
+            changed_any = True
+            inlined.extend(f"{x} (copied into {modname})" for x in imported)
         _BASES.clear()
         _METHODS.clear()
         for st in tree.body:
